@@ -434,6 +434,9 @@ func c12ExecTrace(s c12Seq, trace func(step int, evs []Event)) []c12Obs {
 				keys = op.Vals[0]
 			}
 			recs, args = c12BuildArgs(k, step, 0, keys, op.Shape)
+			if len(keys) == 0 {
+				recs, args = nil, nil // no value = no argument (an empty slice argument would still trigger a save)
+			}
 			for j, key := range keys {
 				o.Labels = append(o.Labels, c12Label(step, 0, j, key))
 			}
